@@ -334,6 +334,8 @@ class Interp:
             t = v.term
             if t[0] == "val":
                 return self.mk_atom(f"val@{t[-1]}", kind="val", base=t[1], iter=t[-1])
+            if t[0] == "key" or (t[0] == "elem" and isinstance(t[1], tuple) and t[1] and t[1][0] == "val"):
+                return TRUE  # keys and realisations of a query result are (tuples of) module objects
             if t[0] in ("strtest",):
                 return self.mk_atom(show_term(t), kind="strtest", term=t)
             return self.mk_atom(f"bool({show_term(t)})", kind="bool", term=t)
